@@ -3,6 +3,7 @@
 import functools
 import inspect
 import textwrap
+import types
 from collections.abc import MutableMapping, MutableSequence, MutableSet
 from typing import Any, Callable, Iterable, Optional
 
@@ -473,6 +474,9 @@ class DeepCopyMethod(MethodDescriptor):
         new = self.__class__.__new__(self.__class__)
         for attr, value in self.__dict__.items():
             if inspect.ismethod(value) and value.__self__ is self:
+                # Copying the bound method would recurse back into `self`;
+                # re-bind the underlying function to the copy instead.
+                new.__dict__[attr] = types.MethodType(value.__func__, new)
                 continue
             attr_spec = self.__spec_class__.attrs.get(attr)
             if attr_spec and attr_spec.do_not_copy:
